@@ -13,7 +13,14 @@ POLICIES = ['local', 'local-priority-fifo', 'local-priority-lifo', 'static', 'st
 # thread_queue's soft limit (max_thread_count = 1000) while further tasks are still staged there, so
 # the staged tasks can only be started through the over-the-limit branch of add_new_always
 FIXED = [[9001, 0, 'meet', 1200, '--pika:threads=1', '--pika:scheduler=local-priority-fifo'],
-         [9002, 50, 'meet', 1100, '--pika:threads=2', '--pika:scheduler=static-priority']]
+         [9002, 50, 'meet', 1100, '--pika:threads=2', '--pika:scheduler=static-priority'],
+         # 'burst': one parent spawns hundreds of children in a tight loop, so one queue holds far more staged tasks than a
+         # worker converts or steals in one batch (the schedulers work in batches of 64 / 32); every policy family once
+         [9003, 0, 'burst', 6, '--pika:threads=1', '--pika:scheduler=shared-priority'],
+         [9004, 0, 'burst', 10, '--pika:threads=4', '--pika:scheduler=shared-priority'],
+         [9005, 0, 'burst', 6, '--pika:threads=2', '--pika:scheduler=local-priority-fifo'],
+         [9006, 0, 'burst', 6, '--pika:threads=3', '--pika:scheduler=static'],
+         [9007, 0, 'burst', 6, '--pika:threads=2', '--pika:scheduler=abp-priority-lifo']]
 
 
 def zoo_runs(rng, tier):
@@ -44,7 +51,7 @@ def base_runs(rng, tier):
         for pol in POLICIES:
             for th in (1, 2, 3, 4, 8, 16):
                 for k in range(4):
-                    out.append([rng.below(1 << 30), rng.choice([0, 50, 200, 400]), rng.choice(['fanout', 'mixed', 'pingpong']),
+                    out.append([rng.below(1 << 30), rng.choice([0, 50, 200, 400]), rng.choice(['fanout', 'mixed', 'pingpong', 'burst']),
                                 rng.choice([6, 12, 24]), f'--pika:threads={th}', f'--pika:scheduler={pol}'])
     else:
         pols = POLICIES[:]
